@@ -53,7 +53,12 @@ def general(tier, job_open=M_JOB, top_open=M_TOP, nest_open=M_NEST,
     yield from spaces.mk(['flat123'], force='durs',
                          fargs={'values': list(durs)}, job_open=job_open,
                          top_open=top_open, nest_open=nest_open, extra=extra,
-                         k=2 if th else 1, bound=3 if th else 2)
+                         pre=True, k=2 if th else 1, bound=3 if th else 2)
+    # empty nested schedulers as jobs
+    yield from spaces.mk(['nest20', 'nest30'], force='none',
+                         job_open=dict(job_open, dur=[0, 2]),
+                         top_open=top_open, nest_open=nest_open, extra=extra,
+                         k=2 if th else 1, bound=2)
     yield from spaces.mk(['flat4'], th, force='durs',
                          fargs={'values': [1, 2]}, job_open={},
                          top_open={'window': [1, 2]}, nest_open={},
@@ -61,7 +66,7 @@ def general(tier, job_open=M_JOB, top_open=M_TOP, nest_open=M_NEST,
     jo = dict(job_open, dur=[0, 2])
     yield from spaces.mk(['nest32'], force='none', job_open=jo,
                          top_open=top_open, nest_open=nest_open, extra=extra,
-                         k=2 if th else 1, bound=2 if th else 1)
+                         pre=True, k=2 if th else 1, bound=2 if th else 1)
     yield from spaces.mk(['deep3'], force='none', job_open=jo,
                          top_open=top_open, nest_open=nest_open, extra=extra,
                          k=2 if th else 1, bound=2)
